@@ -130,6 +130,7 @@ package store
 //@   ensures [disk-only] {C10,C03} sameExcept(fs, old(fs), refPath(rootGoitPath, newBranchName))
 //@   requires wfRefs(r)
 //@   requires [hashlen] len(newBranchHash) >= 20
+//@   requires [commit-exists] {C03} object.commitStored(fs, rootGoitPath, newBranchHash)
 //@   ensures [dup-refused] {C10,C18} (exists i int :: 0 <= i && i < len(old(r.Heads)) && old(r.Heads)[i].Name == newBranchName) ==> err != nil && seqEq(r.Heads, old(r.Heads))
 //@   ensures [wf] {C10} err == nil ==> wfRefs(r)
 //@   ensures [added] {C10} err == nil ==> exists k int :: 0 <= k && k < len(r.Heads) && r.Heads[k].Name == newBranchName && string(r.Heads[k].hash) == string(newBranchHash) && fresh(r.Heads[k])
@@ -170,6 +171,7 @@ package store
 //@   ensures [disk-only] {C10,C03} sameExcept(fs, old(fs), refPath(rootGoitPath, branchName))
 //@   requires wfRefs(r)
 //@   requires [hashlen] len(newHash) >= 20
+//@   requires [commit-exists] {C03} object.commitStored(fs, rootGoitPath, newHash)
 //@   ensures [unknown-refused] {C10,C18} (forall i int :: 0 <= i && i < len(r.Heads) ==> r.Heads[i].Name != branchName) ==> err != nil && (forall i int :: 0 <= i && i < len(r.Heads) ==> string(r.Heads[i].hash) == string(old(r.Heads[i].hash)))
 //@   ensures [wf] {C10} wfRefs(r)
 //@   ensures [updated] {C10,C08,C02} err == nil ==> exists k int :: 0 <= k && k < len(r.Heads) && r.Heads[k].Name == branchName && string(r.Heads[k].hash) == string(newHash)
@@ -188,6 +190,18 @@ package store
 //@   requires wfRefs(r)
 
 //@ pred wfReflog(r) := forall i int :: 0 <= i && i < len(r.records) ==> r.records[i] != nil && (len(r.records[i].Hash) == 0 || len(r.records[i].Hash) >= 20)
+
+// Connectivity of the HEAD log (C03): every line that load turns into a record names, in its second field, the zero id or a
+// commit that is stored. logConn is an invariant of the repository that is assumed at command entry (the commands that append
+// to the log write ids of commits they have just read or written; that induction over histories is not done here).
+//@ pred logPath(root) := pjoin(pjoin(root, "logs"), "HEAD")
+//@ pred zeroId() := "0000000000000000000000000000000000000000"
+//@ pred logHas3(t) := contains(t, " ") && contains(splitTail(t, " "), " ")
+//@ pred logField1(t) := splitHead(splitTail(t, " "), " ")
+//@ pred logLineOK(f, root, t) := logHas3(t) && logField1(t) != zeroId() ==> object.commitStored(f, root, unhex(logField1(t)))
+//@ pred logTextOK(f, root, s) := forall t string {isTokOf(s, "\n", t)} :: isTokOf(s, "\n", t) ==> logLineOK(f, root, t)
+//@ pred logConn(f, root) := isFile(f, logPath(root)) ==> logTextOK(f, root, content(f, logPath(root)))
+//@ pred recordsConn(f, root, r) := forall i int :: 0 <= i && i < len(r.records) ==> len(r.records[i].Hash) == 0 || object.commitStored(f, root, r.records[i].Hash)
 
 //@ func Reflog.GetRecord
 //@   returns rec, err
@@ -291,6 +305,7 @@ package store
 //@   returns c, err
 //@   modifies $rdpos, $hashdata
 //@   ensures [result] {C10,C19} err == nil ==> c != nil && c.Object != nil
+//@   ensures [connected] {C03} err == nil ==> object.commitStored(fs, rootGoitPath, c.Hash) && len(c.Hash) >= 20
 //@   ensures [nil] err != nil ==> c == nil
 
 //@ regexp headRegexp: match(s) ==> contains(s, ": ")
@@ -300,18 +315,21 @@ package store
 //@   modifies Head.Reference, Head.Commit, fs, $rdpos, $hashdata
 //@   requires refs != nil && wfRefs(refs)
 //@   ensures [unknown-refused] {C10,C18} (forall i int :: 0 <= i && i < len(refs.Heads) ==> refs.Heads[i].Name != newRef) ==> err != nil && fs == old(fs) && h.Reference == old(h.Reference) && h.Commit == old(h.Commit)
-//@   ensures [file] {C10,C03} err == nil ==> fs == fsWrite(old(fs), headPath(rootGoitPath), "ref: refs/heads/" + newRef) && h.Reference == newRef && h.Commit != nil
+//@   ensures [file] {C10,C03} err == nil ==> fs == fsWrite(old(fs), headPath(rootGoitPath), "ref: refs/heads/" + newRef) && h.Reference == newRef && h.Commit != nil && h.Commit.Object != nil
 //@   ensures [only] {C10,C03} sameExcept(fs, old(fs), headPath(rootGoitPath))
+//@   ensures [connected] {C03} err == nil ==> object.commitStored(fs, rootGoitPath, h.Commit.Hash)
 
 //@ func Head.Reset
 //@   returns err
 //@   modifies Head.Commit, branch.hash, fs, $rdpos, $hashdata
 //@   requires refs != nil && wfRefs(refs)
 //@   requires [hashlen] len(hash) >= 20
-//@   ensures [branch] {C08,C10} err == nil ==> (exists k int :: 0 <= k && k < len(refs.Heads) && refs.Heads[k].Name == h.Reference && string(refs.Heads[k].hash) == string(hash)) && h.Commit != nil
+//@   requires [commit-exists] {C03} object.commitStored(fs, rootGoitPath, hash)
+//@   ensures [branch] {C08,C10} err == nil ==> (exists k int :: 0 <= k && k < len(refs.Heads) && refs.Heads[k].Name == h.Reference && string(refs.Heads[k].hash) == string(hash)) && h.Commit != nil && h.Commit.Object != nil
 //@   ensures [others] {C08,C10} forall i int :: 0 <= i && i < len(refs.Heads) && refs.Heads[i].Name != h.Reference ==> string(refs.Heads[i].hash) == old(string(refs.Heads[i].hash))
 //@   ensures [disk-only] {C08,C03} sameExcept(fs, old(fs), refPath(rootGoitPath, h.Reference))
 //@   ensures [head-same] {C08} h.Reference == old(h.Reference)
+//@   ensures [connected] {C03} err == nil ==> object.commitStored(fs, rootGoitPath, h.Commit.Hash)
 //@   ensures [wf] wfRefs(refs)
 
 //@ func Index.Reset
@@ -335,21 +353,25 @@ package store
 //@   returns h, err
 //@   modifies $rdpos, $hashdata, $screst, $sctok
 //@   ensures [result] {C10,C19} err == nil ==> h != nil && (h.Commit != nil ==> h.Commit.Object != nil)
+//@   ensures [connected] {C03} err == nil && h.Commit != nil ==> object.commitStored(fs, rootGoitPath, h.Commit.Hash) && len(h.Commit.Hash) >= 20
 
 //@ func NewReflog
 //@   returns rl, err
 //@   modifies $screst, $sctok
 //@   requires head != nil && refs != nil && wfRefs(refs) && (head.Commit != nil ==> head.Commit.Object != nil)
 //@   ensures [result] {C11,C19} err == nil ==> rl != nil && wfReflog(rl)
+//@   ensures [connected] {C03} logConn(fs, rootGoitPath) && err == nil ==> recordsConn(fs, rootGoitPath, rl)
 
 //@ func Reflog.load
 //@   returns err
 //@   modifies Reflog.records, $screst, $sctok
 //@   requires head != nil && refs != nil && wfRefs(refs) && wfReflog(r) && (head.Commit != nil ==> head.Commit.Object != nil)
 //@   ensures [wf] {C11,C19} wfReflog(r)
+//@   ensures [connected] {C03} logConn(fs, rootGoitPath) && old(recordsConn(fs, rootGoitPath, r)) ==> recordsConn(fs, rootGoitPath, r)
 //@   ensures [others] forall x *Reflog :: x != r ==> x.records == old(x.records)
 //@   loop 0:
 //@     invariant wfReflog(r)
+//@     invariant logConn(fs, rootGoitPath) && old(recordsConn(fs, rootGoitPath, r)) ==> recordsConn(fs, rootGoitPath, r) && logTextOK(fs, rootGoitPath, scRest(scanner))
 //@     invariant forall x *Reflog :: x != r ==> x.records == old(x.records)
 
 //@ func NewEntry
